@@ -177,6 +177,17 @@ class Interp:
 
     def truth(self, v):
         """python truthiness as a python bool (forks in program mode)"""
+        if isinstance(v, VOpt) and isinstance(v.val, VObj):
+            v = self.need(v)
+        if isinstance(v, VObj) and isinstance(v.cls, ClassInfo):
+            for dunder in ("__bool__", "__len__"):
+                owner, found = v.cls.find_method(dunder)
+                if isinstance(found, list):
+                    f = VFunc(found[-1], owner.module, None, f"{owner.name}.{dunder}", owner)
+                    r = self.call(f.bind(v), [], {}, None)
+                    return self.branch(truthy(r), "truth")
+                if owner is not None and not isinstance(owner, ClassInfo) and found is None:
+                    break
         return self.branch(truthy(v), "truth")
 
     # ------------------------------------------------------------- name lookup
